@@ -57,6 +57,7 @@ def config(rng, tier):
         "xio": rng.random() < 0.25,
         "tg_span": rng.choice(["none", "given", "given"]),
         "maxn": rng.choice([8] * 22 + [24, 40]),
+        "crash": rng.random() < 0.15,  # inject crashes at arbitrary lines inside mutators (observation only)
     }
 
 
@@ -146,6 +147,19 @@ class C13Oracle(Oracle):
                 return "list"
             return "tg" if isinstance(o, Textgrid) else ("I" if isinstance(o, IntervalTier) else "P")
 
+        if out.step.get("crash_at") and not out.ok and type(out.exc).__name__ == "InjectedCrash":
+            # a crash injected at an arbitrary line inside a mutator: outside every listed failure cause.
+            # Observed, never judged - except that objects other than the receiver (and textgrids
+            # holding it) still may not change.
+            dirty = [h for h in changed if w.heap[h] is not recv
+                     and not (isinstance(w.heap[h], Textgrid) and isinstance(recv, TextgridTier)
+                              and id(recv) in before_ids.get(h, ()))]
+            if dirty:
+                h = dirty[0]
+                self.fail("frame", name, f"{who(h)}-{tkind(h)}-changed-by-crashed-call", {
+                    "handle": h, "before": before_objs[h], "after": now_objs[h]})
+            run.stats["observation:crash_mid_mutator:" + name + (":left_partial_state" if changed else ":state_intact")] += 1
+            return
         if kind == "mut" and out.ok:
             # ---- frame condition
             for h in changed:
@@ -674,12 +688,19 @@ def generate(run, rng):
             continue
         r = rng.random()
         pool = g.world_pool(w)
+
+        def crashy(st):
+            if cfg.get("crash") and rng.random() < 0.3:
+                st["crash_at"] = rng.randrange(1, 90)
+                st["tag"] = "X-crash"
+            return st
+
         if r < 0.22:
             h = g.pick(tiers)
-            run.do(g.step_insert(w, h, extra_pool=pool))
+            run.do(crashy(g.step_insert(w, h, extra_pool=pool)))
         elif r < 0.30:
             h = g.pick(tiers)
-            run.do(g.step_delete(w, h, present=True))
+            run.do(crashy(g.step_delete(w, h, present=True)))
         elif r < 0.44:
             tgh = g.pick(tgs)
             tg = w.heap[tgh]
@@ -688,18 +709,19 @@ def generate(run, rng):
             k = rng.random()
             free = [x for x in tiers if w.heap[x].name not in names]
             if k < 0.45 and free:
-                run.do({"op": "tg.addTier", "recv": tgh, "a": [H(g.pick(free))],
-                        "k": {"tierIndex": g.pick([None, None, 0, 1, -1, 7]), "reportingMode": g.pick(["silence", "warning"])}})
+                run.do(crashy({"op": "tg.addTier", "recv": tgh, "a": [H(g.pick(free))],
+                               "k": {"tierIndex": g.pick([None, None, 0, 1, -1, 7]),
+                                     "reportingMode": g.pick(["silence", "warning"])}}))
             elif k < 0.6 and names:
-                run.do({"op": "tg.removeTier", "recv": tgh, "a": [g.pick(names)]})
+                run.do(crashy({"op": "tg.removeTier", "recv": tgh, "a": [g.pick(names)]}))
             elif k < 0.8 and names and absent:
-                run.do({"op": "tg.renameTier", "recv": tgh, "a": [g.pick(names), g.pick(absent)]})
+                run.do(crashy({"op": "tg.renameTier", "recv": tgh, "a": [g.pick(names), g.pick(absent)]}))
             elif names:
                 old = g.pick(names)
                 okt = [x for x in tiers if w.heap[x].name not in [n for n in names if n != old]]
                 if okt:
-                    run.do({"op": "tg.replaceTier", "recv": tgh, "a": [old, H(g.pick(okt))],
-                            "k": {"reportingMode": g.pick(["silence", "warning"])}})
+                    run.do(crashy({"op": "tg.replaceTier", "recv": tgh, "a": [old, H(g.pick(okt))],
+                                   "k": {"reportingMode": g.pick(["silence", "warning"])}}))
         elif r < 0.52:
             # alias: a tier living inside a textgrid becomes a heap receiver
             tgh = g.pick(tgs)
